@@ -31,7 +31,7 @@ package kernel
 //@   ensures [errors-grow] StoreErrors(chain.node.persistStore) >= old(StoreErrors(chain.node.persistStore))
 //@   hint at "chain.CosiAggregators = make(map[crypto.Hash]*CosiAggregator)" [all-collected] forall k crypto.Hash :: {has(chain.CosiAggregators, k)} has(chain.CosiAggregators, k) ==>
 //@       Collected(owned, retry, chain.CosiAggregators[k].Snapshot)
-//@   ensures [maps-empty] chain.CosiAggregators != nil && chain.CosiVerifiers != nil && len(chain.CosiAggregators) == 0 && len(chain.CosiVerifiers) == 0 &&
+//@   ensures [maps-empty] chain.CosiAggregators != nil && chain.CosiVerifiers != nil && fresh(chain.CosiAggregators) && fresh(chain.CosiVerifiers) && len(chain.CosiAggregators) == 0 && len(chain.CosiVerifiers) == 0 &&
 //@       (forall k crypto.Hash :: {has(chain.CosiAggregators, k)} !has(chain.CosiAggregators, k)) && (forall k crypto.Hash :: {has(chain.CosiVerifiers, k)} !has(chain.CosiVerifiers, k))
 //@   loop 0 invariant [keepA] forall h crypto.Hash :: {has(keep, h)} has(keep, h) ==> keep[h] && (exists j int :: 0 <= j && j <= rangeindex && owned[j] == h)
 //@   loop 0 invariant [keepB] forall j int :: {owned[j]} 0 <= j && j <= rangeindex ==> has(keep, owned[j])
